@@ -50,6 +50,8 @@ def strategy(tier):
         "creator": st.sampled_from(["TorrentFile", "Assembler2", "Assembler3", "TorrentFileV2", "TorrentFileHybrid"]),
         "opts": edits.create_options(),
         "edits": st.lists(edits.edit_request(routes=("lib",)), min_size=0, max_size=2),
+        # "edited here" also means the interactive editor: nothing changed ("done" at once) or the comment changed
+        "interactive": st.sampled_from([None, None, None, "noop", "comment"]),
     })
     ref = st.fixed_dictionaries({
         "kind": st.just("ref"),
@@ -85,6 +87,8 @@ def build(scr, case):
         common.create(src["creator"], "lib", root, out, P, extra_kw=dict(src["opts"]))
         for req in src["edits"]:
             apply_edit(req, out)
+        if src.get("interactive"):
+            _interactive_edit(out, src["interactive"])
     else:
         os.makedirs(os.path.join(scr, "out"), exist_ok=True)
         tree["name"] = src["name"]
@@ -101,6 +105,22 @@ def build(scr, case):
         with open(out, "wb") as fd:
             fd.write(data)
     return out
+
+
+def _interactive_edit(path, what):
+    """Drive interactive.edit_action by answering its prompts."""
+    import builtins
+    import importlib
+    inter = importlib.import_module("torrentfile.interactive")
+    answers = [path] + (["1", "edited interactively"] if what == "comment" else []) + ["done"]
+    it = iter(answers)
+    real_input = builtins.input
+    builtins.input = lambda *_a: next(it)
+    try:
+        with target.quiet():
+            inter.edit_action()
+    finally:
+        builtins.input = real_input
 
 
 def parse(uri):
@@ -187,6 +207,8 @@ def run_case(case):
         classes.append("foreign-extra-info-keys")
     if src["kind"] == "own" and src["edits"]:
         classes.append("edited")
+    if src["kind"] == "own" and src.get("interactive"):
+        classes.append("edited-interactively")
     if other:
         classes.append("extra-params")
     nontrivial = special or (hybrid and version != 0) or (src["kind"] == "ref" and bool(src["info"]))
